@@ -16,11 +16,11 @@ def rpc_runs(chk, label, classify=None, **kw):
 
 
 def mc_rpc(chk):
-    chk.add_mc(tlc_mc("AnemoRpc.tla", "MC_Rpc.cfg", workers=8, timeout=600))
-    chk.add_mc(tlc_mc("AnemoRpc.tla", "MC_Rpc_nolose.cfg", workers=8, timeout=600))
+    chk.add_mc(tlc_mc("AnemoRpc.tla", "MC_Rpc.cfg", workers=8, timeout=1500))
+    chk.add_mc(tlc_mc("AnemoRpc.tla", "MC_Rpc_nolose.cfg", workers=8, timeout=1500))
     # liveness under weak fairness of every honest / callee / transport step: an open call ends, a waiting
     # one gets a stream unless streams are legitimately held, abandoned handlers are dropped, credit returns
-    chk.add_mc(tlc_mc("AnemoRpc.tla", "MC_Rpc_live.cfg", workers=4, timeout=600))
+    chk.add_mc(tlc_mc("AnemoRpc.tla", "MC_Rpc_live.cfg", workers=4, timeout=1500))
     spec_mutant(chk, "live_stop_ignored_by_hanging_handlers", "AnemoRpc.tla", "MC_Rpc_live.cfg",
                 [("AnemoRpc.tla", 'StopSeen(q) == /\\ Live /\\ ss[q] = "handling" /\\ stop[q]',
                   'StopSeen(q) == /\\ Live /\\ ss[q] = "handling" /\\ stop[q] /\\ q \\notin Hangs')], workers=4)
